@@ -26,7 +26,16 @@ pub fn gen_case(t: &mut Tape, tier: Tier) -> Option<Phys> {
         classes.push("kin:small-integers");
         return Some(Phys { g, kin, x, classes: classes.into_iter().map(String::from).collect() });
     }
-    gen::gen_phys(t, &PhysOpts { max_e: tier.pick(8, 9), max_l: 8, min_omega: mo, dmax: 6, max_ops: tier.pick(4, 6), profile: prof })
+    let mut p = gen::gen_phys(t, &PhysOpts { max_e: tier.pick(8, 9), max_l: 8, min_omega: mo, dmax: 6, max_ops: tier.pick(4, 6), profile: prof })?;
+    if !t.chance(0.9) {
+        // edge data that contradicts the mass flags the sampler was built with (a mass for an edge declared massless,
+        // none for one declared massive): the momentum-map identities are algebraic in the masses actually supplied
+        gen::contradict_mass_flags(t, &mut p);
+        if !crate::oracle::sym::Sym::new(&p.g, &p.kin.inflow, &p.kin.masses).f_nonzero() {
+            return None;
+        }
+    }
+    Some(p)
 }
 
 pub fn assert_c10(c: &Phys, ev: &Eval, ctx: &mut Ctx) -> Result<(), Failure> {
